@@ -67,6 +67,13 @@ def drive(sc):
         return np.array([g[0], g[1]] if masked else [g[0], 1.0, g[1]], dtype=np.float64)
 
     def script(kw):
+        # what SciPy itself does with the arguments: scipy.optimize.minimize ignores `constraints` for every method but
+        # COBYLA / SLSQP (a RuntimeWarning only) and `bounds` for CG / BFGS / Newton-CG - handing them over is dropping them
+        if Captured.kind == "minimize":
+            if method not in ("slsqp", "cobyla"):
+                kw = {**kw, "constraints": ()}
+            if method in ("cg", "bfgs", "newton-cg"):
+                kw = {**kw, "bounds": None}
         b = kw.get("bounds")
         if b is not None:
             e["bounds"] = {"present": True, "lb": nums(b.lb), "ub": nums(b.ub)}
@@ -129,6 +136,8 @@ CHECK = PropertyCheck(
           "limit). Non-trivial: >=2 different kinds, or a mask with a retained linear row."),
     assumptions=["affine integer constraint functions; the stochastic gradient of an affine function is exact up to rounding",
                  "linear rows with a coefficient on a fixed variable are not 'retained' and excluded from the equivalence",
-                 "a NotImplementedError for a method other than slsqp / differential_evolution counts as rejection"],
+                 "a NotImplementedError for a method other than slsqp / differential_evolution counts as rejection",
+                 "the scripted SciPy client ignores what SciPy ignores: constraints for methods other than COBYLA/SLSQP, bounds for "
+                 "CG/BFGS/Newton-CG"],
     trace_chunk=600,
 )
